@@ -1,7 +1,8 @@
 ------------------------------- MODULE MC_Concat -------------------------------
 EXTENDS Concat, Json, IOUtils, SequencesExt
 CONSTANTS MaxPieces
-StrPieces  == {<<>>, CA, CNT \o CSQRT, CCRAB}
+\* piece lengths 0, 1, 2, 2, 4, 5 bytes (so that byte totals and piece counts can coincide in several ways)
+StrPieces  == {<<>>, CA, CNT, <<97, 98>>, CNT \o CSQRT, CCRAB}
 CharPieces == {CA, CNT, CSQRT, CCRAB}
 \* second family: pieces and separators of 7..17 bytes (around the 8- and 16-byte block sizes), with a multi-byte
 \* character at the start, at the end, or straddling byte 8
